@@ -1,10 +1,10 @@
 package checks
 
 import (
+	"time"
 	"bytes"
 	"fmt"
 	"os"
-	"os/exec"
 	"path/filepath"
 	"strconv"
 	"strings"
@@ -291,11 +291,11 @@ func c14FreshEval(cs *core.Case) (bool, string, string) {
 	for _, v := range cs.Ints {
 		args = append(args, strconv.Itoa(v))
 	}
-	out, err := exec.Command(self, args...).Output()
+	out, err, _ := runChild(5*time.Minute, nil, self, args...)
 	if err != nil {
 		return false, "C14/fresh-process-failed", fmt.Sprintf("fresh process for history %v failed: %v", cs.Ints, err)
 	}
-	theirs := strings.Split(strings.TrimSpace(string(out)), "\n")
+	theirs := strings.Split(strings.TrimSpace(out), "\n")
 	if len(theirs) != len(mine) {
 		return false, "C14/fresh-process-output", fmt.Sprintf("fresh process printed %d answers, expected %d", len(theirs), len(mine))
 	}
